@@ -697,13 +697,15 @@ def model_disagreements(c, R, M):
         r8 = rows("dfr8", R)
         a = sorted((x[1], x[2], to_pixel(x[4], 0, 1, 1, 1) if x[4] != "fail" else "-") for x in r8)
         b = [(x[2], x[3], x[8] if (x[6] == "0" and re.fullmatch(r"[0-9a-f]+", x[8])) else None) for x in m8]
-        # compressed pixels are not decoded by the model: take the library's for the comparison of the rest
-        for i, q in enumerate(b):
-            if q[2] is None:
-                cand = [p for p in a if p[:2] == q[:2]]
-                b[i] = (q[0], q[1], cand[0][2] if cand else "")
-        b = sorted(b)
-        if k == "img" and a != b and sorted(set(a)) != sorted(set(b)):
+        # compressed pixels are not decoded by the model: such an image is matched on its dimensions only
+        pool, ok8 = list(a), len(a) == len(b)
+        for q in sorted(b, key=lambda q: q[2] is None):
+            hit = [p_ for p_ in pool if p_[:2] == q[:2] and (q[2] is None or p_[2] == q[2])]
+            if not hit:
+                ok8 = False
+                break
+            pool.remove(hit[0])
+        if k == "img" and not ok8:
             bad.append("DFR8getrig model differs from DFR8getdims/getimage: R=%s M=%s" % (str(a)[:150], str(b)[:150]))
         if k == "img":
             view = "grr" if c["w"] == "gr" else "gr"
